@@ -27,6 +27,7 @@ def tables(n=12, index="range", wide=False):
             "e": pd.Timestamp("2024-01-01") + pd.to_timedelta((i * 37) % 29, unit="D"),
             "u": i * 2 + 1,
             "f": (i * 5 + 1) % 3,
+            "g": (i + 1) // 2,  # non-decreasing, duplicates straddle the partition borders of from_pandas
         }
     )
     m = min(10, max(5, n // 2 + 1))
@@ -41,30 +42,36 @@ def tables(n=12, index="range", wide=False):
         }
     )
     df3 = df.iloc[::-1].reset_index(drop=True).assign(u=lambda x: x.u + 100)
+    df4 = df.iloc[: max(3, n // 2)].reset_index(drop=True).assign(u=lambda x: x.u + 200)
     if index == "dupint":
         df.index = pd.Index(np.sort((i * 3) % 5), name="ix")
         df2.index = pd.Index(np.sort((j * 2) % 4), name="ix")
         df3.index = pd.Index(np.sort((i * 3) % 5) + 5, name="ix")
+        df4.index = pd.Index(np.sort((np.arange(len(df4)) * 3) % 5) + 4, name="ix")
     elif index == "float":
         df.index = pd.Index(i * 0.5 - 1.0, name="ix")
         df2.index = pd.Index(j * 0.5, name="ix")
         df3.index = pd.Index(i * 0.5 + 10, name="ix")
+        df4.index = pd.Index(np.arange(len(df4)) * 0.5 + (n - 1) * 0.5 - 1.0, name="ix")
     elif index == "str":
         df.index = pd.Index([f"k{x:02d}" for x in i], name="ix")
         df2.index = pd.Index([f"k{x:02d}" for x in j * 2], name="ix")
         df3.index = pd.Index([f"m{x:02d}" for x in i], name="ix")
+        df4.index = pd.Index([f"k{x:02d}" for x in np.arange(len(df4)) + n - 1], name="ix")
     elif index == "dt":
         df.index = pd.Index(pd.Timestamp("2024-03-01") + pd.to_timedelta(i, unit="D"), name="ix")
         df2.index = pd.Index(pd.Timestamp("2024-03-01") + pd.to_timedelta(j * 2, unit="D"), name="ix")
         df3.index = pd.Index(pd.Timestamp("2024-04-01") + pd.to_timedelta(i, unit="D"), name="ix")
+        df4.index = pd.Index(pd.Timestamp("2024-03-01") + pd.to_timedelta(np.arange(len(df4)) + n - 1, unit="D"), name="ix")
     else:
         df3.index = pd.RangeIndex(n, 2 * n)
+        df4.index = pd.RangeIndex(n - 1, n - 1 + len(df4))  # first label == last label of df
     if wide:
-        for k, fr in enumerate((df, df2, df3)):
+        for k, fr in enumerate((df, df2, df3, df4)):
             fr.insert(1, f"zz_unused{k}", np.arange(len(fr)) * 1.5)
             fr[f"zz_unused_s{k}"] = "pad"
             fr.insert(0, f"zz_unused_i{k}", np.arange(len(fr))[::-1].copy())
-    return {"df": df, "df2": df2, "df3": df3}
+    return {"df": df, "df2": df2, "df3": df3, "df4": df4}
 
 
 def compositions(n, max_parts=None, with_empty=False):
@@ -481,6 +488,21 @@ P("head_elemwise", lambda t: (t.df.u + 1).head(2, compute=False) if t.lazy else 
 P("head_filter_npall", lambda t: t.df[t.df.a > 1].head(3, npartitions=-1, compute=False) if t.lazy else t.df[t.df.a > 1].head(3), tags={"head"})
 P("head_bcast", lambda t: (t.df.u + t.df.u.sum()).head(2, compute=False) if t.lazy else (t.df.u + t.df.u.sum()).head(2), tags={"head"})
 P("tail_elemwise", lambda t: (t.df.u * 2).tail(2, compute=False) if t.lazy else (t.df.u * 2).tail(2), tags={"tail"})
+# --- layouts with values sitting exactly on partition borders
+P("concat_touching", lambda t: t.dd.concat([t.df, t.df4]))
+P("concat_touching_loc", lambda t: t.dd.concat([t.df[["a", "u"]], t.df4[["a", "u"]]]).loc[len(t.df) - 1 : len(t.df)], needs_known=True, needs_range=True)
+P("concat_touching_sum", lambda t: t.dd.concat([t.df, t.df4]).u.sum())
+P("set_index_presorted_dups", lambda t: t.df.set_index("g")[["u"]].reset_index().sort_values(["g", "u"]).reset_index(drop=True), tags={"sort"})
+P("set_index_presorted_dups_raw", lambda t: t.df.set_index("g")[["u", "a"]], tags={"sort"}, order_free=True)
+P("set_index_presorted_loc", lambda t: t.df.set_index("g").loc[2:4][["u"]], tags={"sort"}, order_free=True)
+P("sort_presorted_dups", lambda t: t.df.sort_values(["g", "u"], ascending=[True, False])[["g", "u"]], tags={"sort"})
+P("sort_presorted_cumsum", lambda t: t.df.sort_values(["g", "u"], ascending=[True, False]).u.cumsum(), tags={"sort"})
+# --- broadcast joins with the small frame on the left, colliding column names
+P("merge_small_left_inner", lambda t: t.df2.merge(t.df, on="a", how="inner", **t.kw(broadcast=True)), order_free=True, index_free=True)
+P("merge_small_left_right", lambda t: t.df2.merge(t.df, on="a", how="right", **t.kw(broadcast=True)), order_free=True, index_free=True)
+P("merge_small_left_cols", lambda t: t.df2.merge(t.df, on="a", how="inner", **t.kw(broadcast=True))[["b_x", "b_y", "c_x", "w"]], order_free=True, index_free=True)
+P("concat_reordered_cols", lambda t: t.dd.concat([t.df[["a", "b", "u"]], t.df3[["u", "a"]], t.df4[["b", "a", "u"]]]))
+P("concat_narrow_first", lambda t: t.dd.concat([t.df[["u"]], t.df3[["a", "u", "b"]]]))
 # --- hash shuffles (layout is a function of the key values only)
 P("shuffle_col", lambda t: t.df.shuffle("a") if t.lazy else t.df, order_free=True, tags={"shuffle"})
 P("shuffle_more", lambda t: t.df.shuffle("a", npartitions=7) if t.lazy else t.df, order_free=True, tags={"shuffle"})
